@@ -41,7 +41,9 @@ ASSUMPTIONS = [
 ]
 
 EXCS = {"ValueError": ValueError, "KeyError": KeyError, "RuntimeError": RuntimeError,
-        "IndexError": IndexError, "LookupError": LookupError}
+        "IndexError": IndexError, "LookupError": LookupError,
+        # a Deferred can just as well have failed with one of these (a worker that was interrupted)
+        "KeyboardInterrupt": KeyboardInterrupt, "SystemExit": SystemExit}
 VALUES = [None, 0, 3, "x", [1, 2]]
 
 
@@ -120,7 +122,10 @@ def x_history(ctx, case):
         verdicts = []
         for mk in (has_no_result, lambda: succeeded(Always()), lambda: failed(Always())):
             d, state, inner = make_deferred(init)
-            verdicts.append(mk().match(d) is None)
+            try:
+                verdicts.append(mk().match(d) is None)
+            except BaseException as e:  # noqa - a matcher reports, it never raises what the Deferred holds
+                verdicts.append("match raised %r" % (e,))
             d.addErrback(lambda _: None)
         want = [state[0] == "unfired", state[0] == "value", state[0] == "failure"]
         ctx.check(verdicts == want and sum(verdicts) == 1, "exactly-one-of-three-matches",
@@ -153,7 +158,7 @@ def x_history(ctx, case):
                 try:
                     mm = m.match(d)
                     got = mm is None
-                except Exception as e:  # noqa
+                except BaseException as e:  # noqa - a matcher reports, it never raises what the Deferred holds
                     got = "match raised %r" % (e,)
                 if state[0] != "unfired":
                     nontrivial = True
@@ -200,7 +205,7 @@ def x_history(ctx, case):
                     got = ("value", extract_result(d))
                 except DeferredNotFired:
                     got = ("not-fired",)
-                except Exception as e:  # noqa
+                except BaseException as e:  # noqa
                     got = ("raise", type(e).__name__)
                 want = {"unfired": ("not-fired",), "value": ("value", state[1] if len(state) > 1 else None),
                         "failure": ("raise", state[1] if len(state) > 1 else None)}[state[0]]
